@@ -791,14 +791,12 @@ example : isInt 8 (pathOf (getModelConfig exEnv exModelArgs) ["backbone_config",
 
 /-! ### open findings of the validator / placement clauses, as facts about the model (= the code as it is) -/
 
-/-- F-C20d: `ConvNextConfig` has no `model_type` validator — an unknown size is accepted
-(`fieldRules "ConvNextConfig" = []`) -/
-theorem convnext_model_type_counterexample :
-    fieldRules "ConvNextConfig" = [] ∧
-    (mk exEnv "ConvNextConfig" [("model_type", cstr "huge")]).toBool = true := by
-  constructor
-  · rfl
-  · decide
+/-- F-C20d (fixed): `ConvNextConfig` validates `model_type` — an unknown size is rejected, the four
+documented sizes are accepted -/
+theorem convnext_model_type_rejected :
+    (mk exEnv "ConvNextConfig" [("model_type", cstr "huge")]).toBool = false ∧
+    (mk exEnv "ConvNextConfig" [("model_type", cstr "large")]).toBool = true := by
+  decide
 
 /-- F-C20f: the augmentation `scale` interval is not validated at all — text is accepted -/
 theorem geometric_scale_counterexample :
